@@ -86,7 +86,12 @@ impl WalkForType for MemberFunction {
         let mut ident = Parser::ident(ident_node)?;
 
         let parameters_node = children.next().unwrap();
-        let parameters = Parser::function_parameters(parameters_node, false, true, true)?;
+        let parameters = {
+            // the parameters belong to the method: they are read in a scope of their own,
+            // otherwise their names stay behind in the scope of the class
+            let _scope_handle = input.user_data().push_function(ScopeReturnStatus::Void);
+            Parser::function_parameters(parameters_node, false, true, true)?
+        };
 
         let maybe_return_type_node = children.next().unwrap();
 
